@@ -215,10 +215,10 @@ func gen(tier string, rng *h.Rng, emit0 func(string)) {
 			emit(fmt.Sprintf("dkgs %d %d d:%d:%s;d:%d:nil", n, me, idx, good, idx))
 		}
 		for _, r := range resps {
-			emit(fmt.Sprintf("dkgs %d %d r:%d:%s", n, me, dealer, r))                                 // no deal yet
-			emit(fmt.Sprintf("dkgs %d %d d:%d:nil;r:%d:%s", n, me, dealer, dealer, r))                 // failed deal: verifier without aggregator
+			emit(fmt.Sprintf("dkgs %d %d r:%d:%s", n, me, dealer, r))                                          // no deal yet
+			emit(fmt.Sprintf("dkgs %d %d d:%d:nil;r:%d:%s", n, me, dealer, dealer, r))                         // failed deal: verifier without aggregator
 			emit(fmt.Sprintf("dkgs %d %d d:%d:%s;r:%d:%s;r:%d:%s", n, me, dealer, good, dealer, r, dealer, r)) // after a good deal, twice
-			emit(fmt.Sprintf("dkgs %d %d r:%d:%s;r:%d:%s", n, me, me, r, me, r))                         // about our own deal
+			emit(fmt.Sprintf("dkgs %d %d r:%d:%s;r:%d:%s", n, me, me, r, me, r))                               // about our own deal
 			emit(fmt.Sprintf("dkgs %d %d r:%d:%s", n, me, n+3, r))
 		}
 		for k := 0; k < scale(30, 500); k++ {
@@ -424,7 +424,7 @@ func genRsign(rng *h.Rng, emit, hon func(string), rounds int) {
 					signs = append(signs, mk(good[i], content))
 				}
 				signs = append(signs, mk(good[t-1], other)) // valid share, other content: recovery fails on it
-				signs = append(signs, mk(junk, content))     // junk with the right content: recovery succeeds now
+				signs = append(signs, mk(junk, content))    // junk with the right content: recovery succeeds now
 				emit(line(signs))
 			}
 			// t valid shares over a content shorter than the 20-byte address suffix
